@@ -1,2 +1,8 @@
 // TU used for extraction: the real public headers of fix8 (header-inline units)
 #include <fix8/f8includes.hpp>
+
+// explicit instantiations requested by the verification units (only these instantiations are verified)
+template size_t FIX8::itoa<int>(int, char *, int);
+template int FIX8::fast_atoi<int>(const char *, const char);
+template unsigned FIX8::fast_atoi<unsigned>(const char *, const char);
+template unsigned short FIX8::fast_atoi<unsigned short>(const char *, const char);
